@@ -12,7 +12,7 @@ import numpy as np
 
 from rv import core, fcsgen, zoo
 
-ANCHORS = ['FCSData.__new__', 'FCSData._parse_time_string', 'FCSData._parse_date_string', 'FCSData.acquisition_time']      # functions the property is anchored in: never entered => inconclusive
+ANCHORS = ['FCSData.__new__', 'FCSData.acquisition_time']      # functions the property is anchored in: never entered => inconclusive
 LEVEL = 'exploration'
 LEVEL_TEXT = 'Contract on FCSData(path) + accessor sweep against a reference derivation from the keywords over a presence/well-formed/ill-formed lattice of optional keywords x time channel x version, and on the real instrument files shipped with the repository. Exploration.'
 TECHNIQUE = 'runtime contract on FCSData(path) + accessor sweep vs a reference keyword derivation over a keyword-presence lattice'
